@@ -930,3 +930,121 @@ package chord
 //@   at send#*: assert then-report-the-groups-error: step == 3 && callarg0 == gErr && callarg1 == gerr
 //@   at send#*: ghost step := 4
 //@   ensures local-all-four-steps: step == 4
+
+// ---- C02: the pointer-repair step rules (the rules a convergence argument for Chord rests on; convergence itself
+// is a liveness property of the whole ring and is not decided here).
+// Notify: a notifier is adopted as predecessor exactly when there is no predecessor, or the current one does not
+// answer Ping, or it does and the notifier lies strictly between it and this node; the same notifier again changes
+// nothing. The adoption is applied at return only if the pointers still hold the values the decision was based on.
+//@ func (n *LocalNode) Notify(predecessor chord.VNode) (err error)
+//@   opt frame=off
+//@   safety off
+//@   use ids48
+//@   requires started: n.state != nil && n.state.history != nil && n.ID() < 281474976710656 && predecessor != nil
+//@   ghost pings int = 0
+//@   ghost perr error = nil
+//@   ghost btw bool = false
+//@   ghost btws int = 0
+//@   ghost locks int = 0
+//@   ghost scur chord.VNode = nil
+//@   ghost pcur chord.VNode = nil
+//@   at call Ping#*: assert pings-the-predecessor-it-knows: any(callrecv) == any(predecessorSnapshot) && pings == 0 && predecessorSnapshot != nil
+//@   at after call Ping#*: ghost perr := callresult
+//@   at after call Ping#*: ghost pings := pings + 1
+//@   at call Between#*: assert closer-means-strictly-between-the-known-predecessor-and-this-node: callarg0 == predecessorSnapshot.ID() && callarg1 == predecessor.ID() && callarg2 == n.ID() && callarg3 == false && pings == 1 && perr == nil
+//@   at after call Between#*: ghost btw := callresult
+//@   at after call Between#*: ghost btws := btws + 1
+//@   at after call Ping#*: havoc n.predecessor, n.surrogate
+//@   at $1/call Lock#1: ghost scur := n.surrogate
+//@   at $1/call Lock#2: ghost pcur := n.predecessor
+//@   at $1/call Lock#*: ghost locks := locks + 1
+//@   ensures local-a-node-that-is-not-running-refuses-and-touches-nothing: err != nil ==> (locks == 0 && pings == 0)
+//@   ensures local-no-predecessor-adopts-the-notifier: (err == nil && predecessorSnapshot == nil) ==> candidatePredecessor == predecessor
+//@   ensures local-the-same-predecessor-again-changes-nothing: (err == nil && predecessorSnapshot != nil && predecessorSnapshot.ID() == predecessor.ID()) ==> (candidatePredecessor == nil && pings == 0)
+//@   ensures local-a-dead-predecessor-is-replaced: (pings == 1 && perr != nil) ==> candidatePredecessor == predecessor
+//@   ensures local-a-live-predecessor-is-replaced-exactly-by-a-closer-notifier: (pings == 1 && perr == nil) ==> (btws == 1 && (btw ==> candidatePredecessor == predecessor) && (!btw ==> candidatePredecessor == nil))
+//@   ensures local-a-different-predecessor-is-pinged: (err == nil && predecessorSnapshot != nil && predecessorSnapshot.ID() != predecessor.ID()) ==> pings == 1
+//@   ensures local-no-adoption-touches-no-pointer: (err == nil && candidatePredecessor == nil) ==> locks == 0
+//@   ensures local-adoption-is-applied-only-to-unchanged-pointers: (err == nil && candidatePredecessor != nil) ==> (locks == 2 && n.predecessor == (pcur == predecessorSnapshot ? candidatePredecessor : pcur) && n.surrogate == (scur == surrogateSnapshot ? (candidatePredecessor.ID() == n.ID() ? nil : candidatePredecessor) : scur))
+
+// checkPredecessor: the predecessor pointer is cleared only after that very predecessor failed a Ping, and only if
+// the pointer still holds it; a missing predecessor or the node itself is never pinged.
+//@ func (n *LocalNode) checkPredecessor() (err error)
+//@   opt frame=off
+//@   safety off
+//@   ghost pings int = 0
+//@   ghost perr error = nil
+//@   ghost locks int = 0
+//@   ghost pcur chord.VNode = nil
+//@   at call Ping#*: assert pings-the-predecessor-it-read: any(callrecv) == any(pre) && pre != nil && pre.ID() != n.ID() && pings == 0
+//@   at after call Ping#*: ghost perr := callresult
+//@   at after call Ping#*: ghost pings := pings + 1
+//@   at after call Ping#*: havoc n.predecessor
+//@   at call Lock#*: ghost pcur := n.predecessor
+//@   at call Lock#*: ghost locks := locks + 1
+//@   ensures local-nothing-to-check-changes-nothing: pings == 0 ==> (err == nil && locks == 0 && (pre == nil || pre.ID() == n.ID()))
+//@   ensures local-a-live-predecessor-is-kept: (pings == 1 && perr == nil) ==> (err == nil && locks == 0)
+//@   ensures local-a-dead-predecessor-is-cleared-if-still-current: (pings == 1 && perr != nil) ==> (err == perr && locks == 1 && n.predecessor == (pcur == pre ? nil : pcur))
+
+// stabilize: the new successor list is headed by the first successor that answered both GetPredecessor and
+// GetSuccessors (dead heads are skipped in order), or by the node that successor reports as its predecessor when it
+// lies strictly between this node and that successor and answers GetSuccessors; the list is stored only when it was
+// rebuilt and its hash changed, and the new immediate successor is then notified about this node.
+//@ func (n *LocalNode) stabilize() (err error)
+//@   opt frame=off
+//@   safety off
+//@   use ids48
+//@   requires started: n.state != nil && n.state.history != nil && n.ID() < 281474976710656
+//@   ghost btw bool = false
+//@   ghost rebuilt int = 0
+//@   ghost stores int = 0
+//@   ghost notified int = 0
+//@   at call GetPredecessor#*: assert asks-the-current-head: any(callrecv) == any(head) && head != nil && rebuilt == 0
+//@   at call GetSuccessors#1: assert asks-the-current-head: any(callrecv) == any(head) && rebuilt == 0
+//@   at call MakeSuccListByID#1: assert the-first-answering-successor-heads-the-new-list: any(callarg0) == any(head) && spErr == nil && nsErr == nil && callarg1 == newSuccList && callarg2 == chord.ExtendedSuccessorEntries && rebuilt == 0
+//@   at call MakeSuccListByID#1: ghost rebuilt := rebuilt + 1
+//@   at call Between#*: assert closer-means-strictly-between-this-node-and-the-head: newSucc != nil && callarg0 == n.ID() && callarg1 == newSucc.ID() && callarg2 == head.ID() && callarg3 == false && rebuilt == 1
+//@   at after call Between#*: ghost btw := callresult
+//@   at call GetSuccessors#2: assert asks-the-closer-node: any(callrecv) == any(newSucc) && btw && rebuilt == 1
+//@   at call MakeSuccListByID#2: assert a-closer-node-that-answers-takes-over-as-head: any(callarg0) == any(newSucc) && btw && nsErr == nil && callarg1 == newSuccList && callarg2 == chord.ExtendedSuccessorEntries && rebuilt == 1
+//@   at call MakeSuccListByID#2: ghost rebuilt := rebuilt + 1
+//@   at call updateSuccessorsList#*: assert only-a-rebuilt-list-is-stored-with-its-hash: modified && rebuilt >= 1 && callarg1 == listHash && callarg2 == succList && stores == 0
+//@   at call updateSuccessorsList#*: ghost stores := stores + 1
+//@   at call Notify#*: assert the-new-immediate-successor-is-told-about-this-node: modified && rebuilt >= 1 && len(succList) > 0 && any(callrecv) == any(succList[0]) && cast(callarg0, "*LocalNode") == n && notified == 0
+//@   at call Notify#*: ghost notified := notified + 1
+//@   ensures local-nothing-answered-nothing-stored: rebuilt == 0 ==> (stores == 0 && notified == 0)
+//@   loop 1: invariant dead-heads-are-only-skipped: !modified && rebuilt == 0 && stores == 0 && notified == 0
+
+//@ func (n *LocalNode) updateSuccessorsList(listHash uint64, succList []chord.VNode)
+//@   opt frame=off
+//@   safety off
+//@   ensures stored: n.successors == succList
+
+// fixK: finger k becomes the node FindSuccessor reports for id + 2^(k-1) (mod 2^48); a failed lookup changes nothing
+//@ func (n *LocalNode) fixK(k int) (updated bool, err error)
+//@   opt frame=off
+//@   safety off
+//@   use ids48
+//@   requires in-range: 1 <= k && k <= 48 && n.ID() < 281474976710656 && n.state != nil
+//@   ghost tgt uint64 = 0
+//@   ghost looks int = 0
+//@   ghost lerr error = nil
+//@   ghost lres chord.VNode = nil
+//@   ghost updates int = 0
+//@   at call ModuloSum#*: assert target-is-the-node-id-plus-the-finger-offset: callarg0 == n.ID()
+//@   at after call ModuloSum#*: ghost tgt := callresult
+//@   at call FindSuccessor#*: assert looks-up-the-finger-target: callarg1 == tgt && looks == 0
+//@   at after call FindSuccessor#*: ghost lres := callresult0
+//@   at after call FindSuccessor#*: ghost lerr := callresult1
+//@   at after call FindSuccessor#*: ghost looks := looks + 1
+//@   at call computeUpdate#*: assert the-entry-of-finger-k-is-updated-after-a-successful-lookup: looks == 1 && lerr == nil && lres != nil && updates == 0
+//@   at call computeUpdate#*: ghost updates := updates + 1
+//@   ensures local-a-failed-lookup-changes-nothing: (looks == 1 && lerr != nil) ==> (err == lerr && updates == 0)
+//@   ensures local-success-means-the-entry-was-visited: err == nil ==> (looks == 1 && updates == 1)
+
+//@ func (n *LocalNode) fixK$1(entry *fingerEntry)
+//@   opt frame=off
+//@   safety off
+//@   requires entry != nil && f != nil
+//@   ensures the-finger-points-at-the-looked-up-node-by-id: entry.node != nil && entry.node.ID() == f.ID()
+//@   ensures an-entry-with-the-right-id-is-kept: (old(entry.node) != nil && old(entry.node).ID() == f.ID()) ==> entry.node == old(entry.node)
